@@ -33,6 +33,71 @@ CLAIMED = {
         ref='DESIGN.md section 5 C16'),
 }
 
+SEARCH_NOTE = ('Trusted: Coq kernel + vm_compute; translator py2v.py with the bridge lemmas of proofs/SearchBridge.v; numeric '
+               'kernels (shares, correlations, required impact, diagnostic tests) enter as oracles -- the theorems hold for '
+               'every behaviour of them; exhaustive_search / greedy_search / geos_within_constraints are hand-modelled in '
+               'model/Search.v and tied to the code by executed correspondence on generated cases (kernel tables from fresh '
+               'objects); heapq, itertools.combinations, CPython small-int set order (only under score ties). No axioms.')
+CLAIMED.update({
+    'C01': dict(
+        text='Coq theorems (props/C01.v) for every value type, score comparison, list of eligibility rows, parameter record '
+             'and kernel behaviour: every design of the exhaustive search (via "returned => pushed => enumerated") and of '
+             'the greedy search (invariant of the hill climb, any fuel) is a legal assignment; the geo index admits exactly '
+             'eligible non-excluded geos and every must-include geo (also under n_geos_max); legality transfers from index '
+             'sets to the geos of the data. Generators and class algebra are re-translated and bridged on every run; 150 / '
+             '3000 generated cases are run through both searches and the model and compared component by component; the '
+             'property is evaluated on the returned designs from the raw eligibility table.',
+        note=SEARCH_NOTE, technique='Rocq/Coq proof (loop invariant, membership specs of the generators) + translator bridge '
+        'lemmas + executed correspondence + direct oracle', ref='DESIGN.md section 5 C01'),
+    'C02': dict(
+        text='Coq theorems (props/C02.v): every design returned by the exhaustive search has sizes inside the user ranges, a '
+             'geo-count ratio admitted by the tolerance, and passed the volume / share / budget tests exactly as the code '
+             'evaluates them; every greedy design passed design_within_constraints and the budget test; integer bounds are '
+             'inclusive; unspecified constraints impose nothing; the translated constraint predicate, size generators and '
+             'design_within_constraints are the model. Correspondence and a direct recomputation of all six constraints '
+             'from the raw frame on generated cases plus a boundary grid.',
+        note=SEARCH_NOTE + ' Bit-level inclusivity of the float geo-ratio bound is tested on a grid, proved over an abstract value type.',
+        technique='Rocq/Coq proof + translator bridge lemmas + executed correspondence + direct oracle',
+        ref='DESIGN.md section 5 C02'),
+    'C03': dict(
+        text='Coq theorems (props/C03.v): what the exhaustive search offers to its queue is exactly the enumerated feasible '
+             'space minus what the documented pruning may skip (sound and complete), nothing is offered twice, and for '
+             'scores in a total order the result is the top k of what was offered, best first, with no offered design '
+             'outside it scoring above the worst returned one. Correspondence of the exhaustive result on generated cases; '
+             'brute-force optimality oracle over all 3^n assignments with the omission clause.',
+        note=SEARCH_NOTE + ' Total order of scores = NaN-free score tuples (premise); ties skipped in the correspondence.',
+        technique='Rocq/Coq proof (trace refinement of the nested loops, top-k of the bounded heap) + executed '
+                  'correspondence + brute-force oracle', ref='DESIGN.md section 5 C03'),
+    'C09': dict(
+        text='Coq theorems (props/C09.v): the translated code cannot divide an integer by zero, the exhaustive search calls '
+             'the generators only inside their domain, an empty size range or an infeasible input yields the empty list '
+             'for both searches; the translator refuses any raise other than ValueError. Correspondence of outcomes '
+             '(ok / ValueError) and results on a degenerate-heavy stream (1-3 geos, unsatisfiable ranges, n_test >= 98); '
+             'oracle: no exception type other than ValueError escapes.',
+        note=SEARCH_NOTE + ' Exceptions raised inside numpy/scipy/pandas kernels are outside the model (exercised by the generated inputs): partial.',
+        technique='Rocq/Coq proof of exception-safety obligations emitted by the translator + executed correspondence + '
+                  'direct oracle', ref='DESIGN.md section 5 C09'),
+    'C11': dict(
+        text='Coq theorems (props/C11.v): count = length of the enumeration (Vandermonde + weighted three-class profile '
+             'count), the enumeration is duplicate-free and is exactly the set of valid assignments (sound and complete), '
+             'and it bounds what the exhaustive search pushes. The loop nest, size ranges and generators are re-translated '
+             'and bridged on every run. Class-count vectors x size/ratio settings are run through count_max_designs, the '
+             'generators, a brute force over 3^n assignments and the model.',
+        note=SEARCH_NOTE, technique='Rocq/Coq proof (combinatorial identity by induction) + translator bridge lemmas + '
+        'executed correspondence + brute-force oracle', ref='DESIGN.md section 5 C11'),
+    'C13': dict(
+        text='Coq theorems (props/C13.v): without budget/share constraints every greedy design is, as a pair of sets, one of '
+             'the designs the exhaustive search offers to its queue, hence (scores in a total order) is not above the '
+             'exhaustive optimum, and greedy returns nothing when exhaustive returns nothing. Premises: exact-arithmetic '
+             'behaviour of three float tests and set-extensionality of the kernels. Correspondence of both searches and a '
+             'brute-force oracle on generated cases.',
+        note=SEARCH_NOTE + ' Premises of the theorem: vlit 1 = float(1), a <= b iff not b < a (no NaN), order-faithful int->float, kernels extensional in the set.',
+        technique='Rocq/Coq proof (greedy invariant + completeness of the enumeration) + executed correspondence + oracle',
+        ref='DESIGN.md section 5 C13'),
+})
+CLAIMED['C14']['text'] += (' Both searches are proved to return at most n_designs designs in non-increasing score order '
+                           '(scores in a total order); checked on generated search cases as well.')
+
 NOT_YET = 'check not built yet in this revision (model under construction; see DESIGN.md section 10)'
 NA = {}
 
